@@ -378,7 +378,8 @@ class Facts:
 
     def _infer_self_types(self) -> None:
         # two rounds so that CommentsTransformer(self.mapfile_transformer) sees the first round
-        for _ in range(3):
+        for _round in range(3):
+            self._lt_ready = _round > 0
             for mname, mi in self.repo.modules.items():
                 for cname, meths in mi.methods.items():
                     cq = f"{mname}.{cname}"
@@ -391,6 +392,9 @@ class Facts:
                                 t = node.targets[0]
                                 if isinstance(t, ast.Attribute) and isinstance(t.value, ast.Name) and t.value.id == "self":
                                     ty = self._ctor_type(mname, cname, fn, node.value, {})
+                                    if ty is None and isinstance(node.value, ast.Name) and node.value.id not in params:
+                                        # self.x = local, where the local was bound to a constructor call in this method
+                                        ty = self.local_types(f"{cq}.{meth}", fn).get(node.value.id) if self.__dict__.get("_lt_ready") else None
                                     if ty is None and isinstance(node.value, ast.Name) and node.value.id in params:
                                         p = node.value.id
                                         ty = defaults.get(p) or self._param_types.get(f"{cq}.{meth}", {}).get(p)
